@@ -206,6 +206,11 @@ impl Expr {
             return true;
         }
 
+        // the value of an arithmetic expression is a number, whatever its operands are
+        if expr.arithmetic_op.is_some() {
+            return true;
+        }
+
         match expr.left {
             Some(ref left) => Self::contains_numeric_field(left),
             None => false,
